@@ -328,6 +328,9 @@ Proof.
   generalize (zsum (map vb inp)) (zsum (map vb others)). intros X Y. zn_ring.
 Qed.
 
+Lemma mod_eqn_eq a b : (a + b mod qn) mod qn = (a + b) mod qn.
+Proof. zn_ring. Qed.
+
 Section Flow.
   Variable pubk : Z -> Z.
   Variable ecdh : Z -> Z -> Z.
@@ -773,4 +776,267 @@ Section Flow.
       intros A1 A2 A3 A4 A5 J4 EQ. unfold zadd. rewrite Z.add_0_r. repeat match goal with |- context [(?a mod qn)%Z] => rewrite (mod_eqn a) end.
       rewrite EQ, J4. unfold eqn. f_equal. ring.
   Qed.
+
+  (* ================================================================== the extracted transaction verifies *)
+  Definition fsec (o : pout) : secrets :=
+    match po_rp o, po_asset o, po_amount o with
+    | Some _, _, _ => osec_of o
+    | None, Some a, Some v => mkSec a 0 v 0
+    | _, _, _ => mkSec 0 0 0 0 end.
+  Definition final_rel (all : list party) (o0 o : pout) : Prop :=
+    (pexplicit o0 /\ o = o0) \/ (exists P, In P all /\ blinded_form pubk ecdh (party_tg ins (fst P)) o0 o).
+  Definition ptotal (b : N) (outs : list pout) : Z :=
+    isum (map (fun o => match po_asset o, po_amount o with Some a, Some v => if N.eqb b a then v else 0 | _, _ => 0 end) outs).
+
+  Lemma blinded_as_extract tgx o0 s esk j bf rk : po_blinding_key o0 = Some rk ->
+    extract_outputs [blinded_as pubk ecdh tgx o0 s esk j bf] = OVal [wts_out_g pubk ecdh (po_script o0) rk esk s (tgens tgx) j bf].
+  Proof. intro K. unfold blinded_as. rewrite K. reflexivity. Qed.
+
+  Lemma final_outputs_verify all vdom : (forall P, In P all -> sec_ok (fst P)) -> Forall2 geq vdom (map sgen (all_ss ins SS)) ->
+    forall outs outs', Forall2 (final_rel all) outs outs' -> forall k,
+    exists touts cs, extract_outputs outs' = OVal touts /\ verify_outputs vdom touts k = OVal cs
+      /\ Forall2 geq cs (map scommit (map fsec outs')) /\ (forall b, asset_total b (map fsec outs') = ptotal b outs)
+      /\ length touts = length outs'.
+  Proof.
+    intros OKs D. induction 1 as [|o0 o outs outs' R F IH]; intro k.
+    - exists [], []. repeat split; try constructor.
+    - destruct (IH (S k)) as (touts & cs & EX & VO & CS & AT & LT). cbn [map].
+      destruct R as [[(K & a & v & A & V & RV & AC & VC & RP & SP & EC) ->]|(P & IP & BF)].
+      + exists (mkOut (AExp a) (VExp v) NNull (po_script o0) None None :: touts), (commit v (gH a) 0 :: cs).
+        cbn [extract_outputs]. rewrite AC, VC, A, V, EC, RP, SP, EX. cbn [obind]. split; [reflexivity|].
+        cbn [verify_outputs]. unfold verify_output, get_value_commit, get_asset_gen. cbn [o_value o_asset o_script o_rp o_sp].
+        destruct (Z.eqb_spec v 0) as [Z0|_]; [lia|]. cbn [obind map_err]. rewrite pedersen_unblinded_H by exact RV. cbn [obind]. rewrite VO. cbn [obind].
+        split; [reflexivity|]. unfold fsec at 1. rewrite RP, A, V. split; [constructor; [apply scommit_iss|exact CS]|]. split; [|cbn; congruence].
+        intro b. unfold asset_total, ptotal in *. cbn [map isum fold_right s_asset s_value]. fold isum. specialize (AT b). unfold isum in AT. rewrite AT, A, V. unfold fsec. rewrite RP, A, V. reflexivity.
+      + destruct BF as (s & esk & j & bf & A & V & Zabf & RV & FT & KN & ->).
+        destruct (po_blinding_key o0) as [rk|] eqn:K; [|congruence].
+        destruct (party_targets (fst P) (OKs P IP)) as (sis & SI & ST & DP & _).
+        assert (TO : tg_ok (party_tg ins (fst P))) by (eapply surjection_targets_ok, ST).
+        assert (DV : Forall2 geq vdom (tgens (party_tg ins (fst P)))).
+        { clear -D DP. revert D DP. generalize (map sgen (all_ss ins SS)) (tgens (party_tg ins (fst P))). intros m t D. revert t.
+          induction D as [|x y l l' E D IH]; intros t DP; inversion DP; subst; constructor; [etransitivity; eassumption|now apply IH]. }
+        exists (wts_out_g pubk ecdh (po_script o0) rk esk s (tgens (party_tg ins (fst P))) j bf :: touts), (scommit s :: cs).
+        assert (EXH : extract_outputs (blinded_as pubk ecdh (party_tg ins (fst P)) o0 s esk j bf :: outs') =
+                      OVal (wts_out_g pubk ecdh (po_script o0) rk esk s (tgens (party_tg ins (fst P))) j bf :: touts)).
+        { unfold blinded_as. rewrite K. cbn [extract_outputs set_blinded wts_out_g po_asset_comm po_amount_comm po_asset po_amount po_ecdh po_script po_rp po_sp o_asset o_value o_nonce o_rp o_sp].
+          rewrite EX. reflexivity. }
+        split; [exact EXH|]. cbn [verify_outputs]. rewrite (verify_output_wts_g pubk ecdh vdom k _ rk esk s _ j bf TO DV FT RV). cbn [obind]. rewrite VO. cbn [obind].
+        split; [reflexivity|].
+        assert (FS : fsec (blinded_as pubk ecdh (party_tg ins (fst P)) o0 s esk j bf) = s).
+        { unfold blinded_as. rewrite K. unfold fsec, osec_of. cbn. apply secrets_eta. }
+        rewrite FS. split; [constructor; [reflexivity|exact CS]|]. split; [|cbn; congruence].
+        intro b. unfold asset_total, ptotal in *. cbn [map isum fold_right]. fold isum. specialize (AT b). unfold isum in AT. rewrite AT, A, V. reflexivity.
+  Qed.
+
+  (* ---- bookkeeping: sums over positions *)
+  Lemma pointwise_Forall2 {A B} (R : A -> B -> Prop) : forall (l : list A) (l' : list B), length l' = length l ->
+    (forall j a, nth_error l j = Some a -> exists b, nth_error l' j = Some b /\ R a b) -> Forall2 R l l'.
+  Proof.
+    induction l as [|a l IH]; intros [|b l'] L H; cbn in L; try discriminate; constructor.
+    - destruct (H 0%nat a eq_refl) as (b' & E & Rab). cbn in E. now injection E as <-.
+    - apply IH; [lia|]. intros j x N. exact (H (S j) x N).
+  Qed.
+  Lemma sum_over_nodup (f : nat -> Z) : forall n (l : list nat), NoDup l -> (forall i, In i l -> (i < n)%nat) ->
+    (forall j, (j < n)%nat -> ~ In j l -> f j mod qn = 0) -> zsum (map f (seq 0 n)) = zsum (map f l).
+  Proof.
+    induction n as [|n IH]; intros l ND B Z0.
+    - destruct l as [|x l]; [reflexivity|]. specialize (B x (or_introl eq_refl)). lia.
+    - rewrite seq_S, map_app, zsum_app. cbn [Nat.add map zsum fold_right].
+      destruct (in_dec Nat.eq_dec n l) as [I|NI].
+      + destruct (in_split _ _ I) as (l1 & l2 & ->).
+        assert (ND' : NoDup (l1 ++ l2)) by (eapply NoDup_remove_1, ND).
+        assert (NI' : ~ In n (l1 ++ l2)) by (eapply NoDup_remove_2, ND).
+        rewrite (IH (l1 ++ l2) ND').
+        * rewrite !map_app, !zsum_app. cbn [map zsum fold_right]. fold (zsum (map f l2)).
+          generalize (zsum (map f l1)) (zsum (map f l2)) (f n). intros. zn_ring.
+        * intros i Ii. assert (In i (l1 ++ n :: l2)) by (apply in_app_or in Ii as [?|?]; apply in_or_app; [now left|right; now right]).
+          specialize (B i H). assert (i <> n) by (intros ->; contradiction). lia.
+        * intros j LJ NJ. apply Z0; [lia|]. intro Ij. apply in_app_or in Ij as [?|[E|?]]; [apply NJ, in_or_app; now left|lia|apply NJ, in_or_app; now right].
+      + rewrite (IH l ND).
+        * rewrite zadd_0_r, zadd_mod_r. unfold zadd. rewrite <- Zplus_mod_idemp_r, (Z0 n (Nat.lt_succ_diag_r n) NI), Z.add_0_r. apply zsum_mod.
+        * intros i Ii. specialize (B i Ii). assert (i <> n) by (intros ->; contradiction). lia.
+        * intros j LJ NJ. apply Z0; [lia|exact NJ].
+  Qed.
+
+  Lemma NoDup_app_intro {A} (a b : list A) : NoDup a -> NoDup b -> (forall x, In x a -> In x b -> False) -> NoDup (a ++ b).
+  Proof.
+    induction a as [|x a IH]; cbn [app]; intros Na Nb D; [exact Nb|]. inversion Na as [|? ? NI Na']; subst. constructor.
+    - intro I. apply in_app_or in I as [I|I]; [contradiction|]. exact (D x (or_introl eq_refl) I).
+    - apply IH; [exact Na'|exact Nb|]. intros y Ia Ib. exact (D y (or_intror Ia) Ib).
+  Qed.
+  Lemma didx_spec all i : In i (didx all) <-> exists P o, In P all /\ nth_error outs0 i = Some o /\ owned_by (fst P) o = true.
+  Proof.
+    unfold didx. rewrite in_flat_map. split.
+    - intros (P & IP & II). apply owned_idx_spec in II as (_ & o & N & OB). rewrite Nat.sub_0_r in N. now exists P, o.
+    - intros (P & o & IP & N & OB). exists P. split; [exact IP|]. apply owned_idx_spec. split; [lia|]. exists o. rewrite Nat.sub_0_r. auto.
+  Qed.
+  Lemma NoDup_didx all : NoDup all -> pairwise_disjoint all -> NoDup (didx all).
+  Proof.
+    induction all as [|P r IH]; intros ND PD; cbn [didx flat_map]; [constructor|]. inversion ND as [|? ? NI ND']; subst.
+    apply NoDup_app_intro; [apply owned_idx_nodup|apply IH; [exact ND'|]|].
+    - intros A B IA IB NE. apply PD; [now right|now right|exact NE].
+    - intros i I1 I2. apply owned_idx_spec in I1 as (_ & o & N & OB). rewrite Nat.sub_0_r in N.
+      apply (didx_spec r i) in I2 as (Q & o' & IQ & N' & OB'). rewrite N in N'. injection N' as <-.
+      assert (NE : P <> Q) by (intros ->; contradiction).
+      exact (PD P Q (or_introl eq_refl) (or_intror IQ) NE o (nth_error_In _ _ N) OB OB').
+  Qed.
+  Lemma svb_zero_bf a v : svb (mkSec a 0 v 0) = 0.
+  Proof. unfold svb, vb. cbn. unfold zadd, zmul. rewrite Z.mul_0_r. reflexivity. Qed.
+  Lemma zsum_all_ss : forall ins' SS' utxos', Forall3 in_ok ins' SS' utxos' -> zsum (map svb (all_ss ins' SS')) = zsum (map svb SS').
+  Proof.
+    induction 1 as [|i s u ins' SS' utxos' (_ & _ & _ & IO) F IH]; cbn [all_ss map zsum fold_right]; [reflexivity|].
+    fold (zsum (map svb SS')). rewrite map_app, zsum_app, IH.
+    assert (Z0 : zsum (map svb (iss_secrets (mk_in i))) = 0).
+    { unfold iss_secrets. destruct (has_issuance (mk_in i)); [|reflexivity].
+      destruct (is_amount (in_iss (mk_in i))), (is_keys (in_iss (mk_in i))); cbn [app map zsum fold_right]; rewrite ?svb_zero_bf; reflexivity. }
+    rewrite Z0, zadd_0_l, zsum_mod. reflexivity.
+  Qed.
+  Lemma Isum_total all : zsum (map (fun P : party => Isum (fst P)) all) = zsum (map svb (flat_map (fun P : party => map snd (fst P)) all)).
+  Proof.
+    induction all as [|P r IH]; cbn [map flat_map zsum fold_right]; [reflexivity|].
+    fold (zsum (map (fun P : party => Isum (fst P)) r)). rewrite map_app, zsum_app, IH. reflexivity.
+  Qed.
+  Lemma map_seq_nth {A} (g : A -> Z) : forall (l : list A) k,
+    map g l = map (fun i => match nth_error l (i - k) with Some o => g o | None => 0 end) (seq k (length l)).
+  Proof.
+    induction l as [|a l IH]; intro k; cbn [length seq map]; [reflexivity|]. rewrite Nat.sub_diag. cbn [nth_error]. f_equal.
+    rewrite (IH (S k)). apply map_ext_in. intros i I. apply in_seq in I. replace (i - k)%nat with (S (i - S k)) by lia. reflexivity.
+  Qed.
+  Lemma eqn_zsum a b : eqn (zsum a) (zsum b) -> zsum a = zsum b.
+  Proof. unfold eqn. now rewrite !zsum_mod. Qed.
+
+  (* facts about one blinded output *)
+  Lemma blinded_output_facts tgx o0 o rsk : blinded_form pubk ecdh tgx o0 o -> po_blinding_key o0 = Some (pubk rsk) ->
+    (forall a b, ecdh (pubk a) b = ecdh (pubk b) a) ->
+    is_fully_blinded o = true
+    /\ (exists t s, extract_outputs [o] = OVal [t] /\ unblind ecdh t rsk = OVal s /\ po_asset o0 = Some (s_asset s) /\ po_amount o0 = Some (s_value s)
+                   /\ o_asset t = AConf (sgen s) /\ o_value t = VConf (scommit s))
+    /\ (exists a v g c bvp bap, po_asset o = Some a /\ po_amount o = Some v /\ po_asset_comm o = Some g /\ po_amount_comm o = Some c
+          /\ po_bvp o = Some bvp /\ po_bap o = Some bap /\ blind_value_proof_verify bvp v g c = true /\ blind_asset_proof_verify bap a g = true).
+  Proof.
+    intros (s & esk & j & bf & A & V & Zabf & RV & FT & KN & ->) K SYM. unfold blinded_as. rewrite K. split; [unfold is_fully_blinded, set_blinded, wts_out_g; cbn; rewrite K; reflexivity|]. split.
+    - exists (wts_out_g pubk ecdh (po_script o0) (pubk rsk) esk s (tgens tgx) j bf), s. split; [reflexivity|].
+      split; [apply (unblind_wts_g pubk ecdh SYM); assumption|]. repeat split; assumption.
+    - unfold blind_value_proof, blind_asset_proof, sp_new. cbn [find_tag]. rewrite N.eqb_refl.
+      eexists _, _, _, _, _, _. cbn [set_blinded po_asset po_amount po_asset_comm po_amount_comm po_bvp po_bap wts_out_g o_asset o_value].
+      split; [exact A|]. split; [exact V|]. split; [reflexivity|]. split; [reflexivity|]. split; [reflexivity|]. split; [reflexivity|]. split.
+      + unfold blind_value_proof_verify, rp_verify. cbn [rp_intact rp_commit rp_script rp_gen rp_value rp_vbf]. rewrite !geqb_refl, Z.eqb_refl. cbn [bytes_eqb andb].
+        rewrite andb_true_r. unfold I64_MAX in RV. apply andb_true_iff. split; [apply Z.leb_le|apply Z.ltb_lt]; lia.
+      + unfold blind_asset_proof_verify, sp_verify. cbn [sp_intact sp_gen sp_domain sp_idx sp_diff map fst nth_error geqb_list]. unfold sgen. rewrite !geqb_refl. cbn [andb].
+        apply geqb_spec. intro k. unfold asset_gen. rewrite !coeff_add, !coeff_scale, coeff_G, coeff_H. destruct (N.eqb k (kH (s_asset s))), (N.eqb k kG); zn_ring.
+  Qed.
+
+  (* ================================================================== C09: every order balances *)
+  Definition outputs_assigned (all : list party) : Prop :=
+    Forall (fun o0 => pexplicit o0 \/ exists P, In P all /\ owned_by (fst P) o0 = true) outs0.
+  Definition flow_ok (l : list party) (L : party) : Prop :=
+    (forall P, In P l -> party_ok 0 P) /\ party_ok 1 L /\ NoDup (l ++ [L]) /\ pairwise_disjoint (l ++ [L])
+    /\ outputs_assigned (l ++ [L])
+    /\ Permutation (flat_map (fun P : party => map snd (fst P)) (l ++ [L])) SS     (* the parties' secrets are those of all inputs, each once *)
+    /\ (forall b, asset_total b (all_ss ins SS) = ptotal b outs0).                  (* per asset: inputs + issuances = outputs *)
+
+  Theorem flow_verifies l L : flow_ok l L -> (forall a b, ecdh (pubk a) b = ecdh (pubk b) a) ->
+    exists psf bl t,
+      run_flow pubk ecdh hop p (mkPset ins outs0 []) l L = OVal (psf, bl)
+      /\ ps_scalars psf = []
+      /\ extract_tx psf = OVal t /\ verify_tx_amt_proofs t utxos = OVal tt
+      /\ length (ps_out psf) = length outs0 /\ length (t_out t) = length outs0
+      /\ forall j o0 rsk, nth_error outs0 j = Some o0 -> po_blinding_key o0 = Some (pubk rsk) ->
+           exists o tj s, nth_error (ps_out psf) j = Some o /\ nth_error (t_out t) j = Some tj
+             /\ is_fully_blinded o = true
+             /\ unblind ecdh tj rsk = OVal s /\ po_asset o0 = Some (s_asset s) /\ po_amount o0 = Some (s_value s)
+             /\ o_asset tj = AConf (sgen s) /\ o_value tj = VConf (scommit s)
+             /\ (exists a v g c bvp bap, po_asset o = Some a /\ po_amount o = Some v /\ po_asset_comm o = Some g /\ po_amount_comm o = Some c
+                   /\ po_bvp o = Some bvp /\ po_bap o = Some bap /\ blind_value_proof_verify bvp v g c = true /\ blind_asset_proof_verify bap a g = true).
+  Proof.
+    intros (OKs & OKL & ND & PD & OUT & PERM & BAL) SYM. set (all := l ++ [L]) in *.
+    assert (FA : Forall (fun o => po_blinding_key o = None -> po_amount o <> None) outs0).
+    { unfold outputs_assigned in OUT. rewrite Forall_forall in *. intros o I K. destruct (OUT o I) as [(_ & a & v & _ & V & _)|(P & _ & OB)].
+      - rewrite V. discriminate. - unfold owned_by in OB. rewrite K in OB. discriminate. }
+    destruct (flow_final l L OKs OKL ND PD FA) as (outs' & bl & RF & LF & PW & GB). fold all in PW, GB.
+    assert (SOK : forall P, In P all -> sec_ok (fst P)).
+    { intros P IP. apply in_app_or in IP as [IP|[<-|[]]]; [apply (OKs P IP)|apply OKL]. }
+    assert (FR : Forall2 (final_rel all) outs0 outs').
+    { apply pointwise_Forall2; [exact LF|]. intros j o0 N0. destruct (PW j o0 N0) as (o & N & U & B). exists o. split; [exact N|].
+      unfold outputs_assigned in OUT. rewrite Forall_forall in OUT. destruct (OUT o0 (nth_error_In _ _ N0)) as [PE|(P & IP & OB)].
+      - left. split; [exact PE|]. apply U. intros P IP. unfold owned_by. destruct PE as (K & _). now rewrite K.
+      - right. exists P. split; [exact IP|]. now apply B. }
+    destruct (verify_inputs_ok _ _ _ (in_ok_opens _ _ _ INS) 0%nat) as (vdom & vcoms & VI & VD & VC).
+    destruct (final_outputs_verify all vdom SOK VD outs0 outs' FR 0%nat) as (touts & cs & EX & VO & CS & AT & LT).
+    exists (mkPset ins outs' []), bl, (mkTx (map mk_in ins) touts).
+    split; [exact RF|]. split; [reflexivity|]. split; [unfold extract_tx; cbn [ps_out ps_in]; rewrite EX; reflexivity|]. split.
+    - apply verify_ok_inv. cbn [t_in t_out]. split; [rewrite map_length; destruct (Forall3_length _ _ _ _ INS) as [_ LU]; exact LU|].
+      exists vdom, vcoms, cs. split; [exact VI|]. split; [exact VO|]. intro k.
+      rewrite (coeff_gsum_geq vcoms _ k VC), (coeff_gsum_geq cs _ k CS).
+      destruct (bkey_cases k) as [->|(b & ->)].
+      + rewrite !zsum_G_total. rewrite (zsum_all_ss _ _ _ INS). rewrite <- (zsum_perm _ _ (Permutation_map svb PERM)), <- Isum_total.
+        apply eqn_zsum. rewrite GB.
+        (* the G-sum over all outputs is the sum over the blinded positions *)
+        unfold Osum.
+        rewrite <- (sum_over_nodup (fun i => match nth_error outs' i with Some o => svb (osec_of o) | None => 0 end) (length outs') (didx all)).
+        * assert (E : map svb (map fsec outs') = map (fun o => svb (osec_of o)) outs').
+          { rewrite map_map. clear -FR. induction FR as [|o0 o a b R F IH]; cbn [map]; [reflexivity|]. rewrite IH. f_equal.
+            destruct R as [[(K & x & v & A & V & RV & AC & VC & RP & SP & EC) ->]|(P & IP & (s & esk & j & bf & A & V & Zabf & RV & FT & KN & ->))].
+            - unfold fsec, osec_of. rewrite RP, A, V. rewrite svb_zero_bf. reflexivity.
+            - unfold blinded_as. destruct (po_blinding_key o0); [|congruence]. reflexivity. }
+          rewrite E, (map_seq_nth (fun o => svb (osec_of o)) outs' 0%nat). unfold eqn. f_equal. f_equal. apply map_ext. intro i. now rewrite Nat.sub_0_r.
+        * apply NoDup_didx; assumption.
+        * intros i I. apply (didx_spec all i) in I as (P & o & _ & N & _). rewrite LF. apply nth_error_Some. congruence.
+        * intros j LJ NJ. rewrite LF in LJ. destruct (nth_error outs0 j) as [o0|] eqn:N0; [|apply nth_error_None in N0; lia].
+          destruct (PW j o0 N0) as (o & N & U & _). rewrite N.
+          assert (UO : forall P, In P all -> owned_by (fst P) o0 = false).
+          { intros P IP. destruct (owned_by (fst P) o0) eqn:OB; [|reflexivity]. exfalso. apply NJ. apply didx_spec. now exists P, o0. }
+          rewrite (U UO). unfold outputs_assigned in OUT. rewrite Forall_forall in OUT. destruct (OUT o0 (nth_error_In _ _ N0)) as [(K & x & v & A & V & RV & AC & VC0 & RP & SP & EC)|(P & IP & OB)].
+          -- unfold osec_of. rewrite RP. reflexivity.
+          -- rewrite (UO P IP) in OB. discriminate.
+      + rewrite !zsum_H_total. f_equal. rewrite AT. apply BAL.
+    - split; [exact LF|]. split; [cbn [t_out]; congruence|].
+      intros j o0 rsk N0 K. destruct (PW j o0 N0) as (o & N & U & B).
+      assert (FRj : final_rel all o0 o).
+      { clear -FR N0 N. revert j N0 N. induction FR as [|a b la lb R F IH]; intros [|j] N0 N; cbn in *; try discriminate.
+        - injection N0 as <-. injection N as <-. exact R. - eapply IH; eassumption. }
+      destruct FRj as [[(KE & _) _]|(P & IP & BF)]; [congruence|].
+      destruct (blinded_output_facts _ o0 o rsk BF K SYM) as (FB & (tj & s & EXj & UB & A & V & OA & OV) & PR).
+      assert (NT : nth_error touts j = Some tj).
+      { clear -EX EXj N. revert touts j EX N. induction outs' as [|x r IH]; intros touts [|j] EX N; cbn [nth_error] in N; try discriminate.
+        - injection N as ->. cbn [extract_outputs] in EX, EXj.
+          destruct (match po_asset_comm o, po_asset o with Some g, _ => Some (AConf g) | None, Some a => Some (AExp a) | None, None => None end); [|discriminate].
+          destruct (match po_amount_comm o, po_amount o with Some c, _ => Some (VConf c) | None, Some v => Some (VExp v) | None, None => None end); [|discriminate].
+          cbn [obind] in EXj. injection EXj as <-. destruct (extract_outputs r); cbn [obind] in EX; try discriminate. injection EX as <-. reflexivity.
+        - cbn [extract_outputs] in EX.
+          destruct (match po_asset_comm x, po_asset x with Some g, _ => Some (AConf g) | None, Some a => Some (AExp a) | None, None => None end); [|discriminate].
+          destruct (match po_amount_comm x, po_amount x with Some c, _ => Some (VConf c) | None, Some v => Some (VExp v) | None, None => None end); [|discriminate].
+          destruct (extract_outputs r) as [tr| |] eqn:ER; cbn [obind] in EX; try discriminate. injection EX as <-. cbn [nth_error]. exact (IH tr j eq_refl N). }
+      exists o, tj, s. cbn [ps_out t_out]. repeat split; try assumption.
+  Qed.
 End Flow.
+
+(* ================================================================== order independence *)
+Lemma flow_ok_perm ins SS outs0 l sigma L : Permutation sigma l -> flow_ok ins SS outs0 l L -> flow_ok ins SS outs0 sigma L.
+Proof.
+  intros PM (OKs & OKL & ND & PD & OUT & PERM & BAL).
+  assert (PA : Permutation (sigma ++ [L]) (l ++ [L])) by (apply Permutation_app_tail; exact PM).
+  split; [intros P IP; apply OKs; eapply Permutation_in; eassumption|]. split; [exact OKL|].
+  split; [eapply Permutation_NoDup; [apply Permutation_sym; exact PA|exact ND]|].
+  split; [intros P Q IP IQ; apply PD; eapply Permutation_in; eassumption|].
+  split; [|split; [|exact BAL]].
+  - unfold outputs_assigned in *. rewrite Forall_forall in *. intros o I. destruct (OUT o I) as [E|(P & IP & OB)]; [now left|right].
+    exists P. split; [|exact OB]. eapply Permutation_in; [apply Permutation_sym; exact PA|exact IP].
+  - eapply Permutation_trans; [|exact PERM]. apply Permutation_flat_map. exact PA.
+Qed.
+
+(* the published scalar of a non-last blinder: (its inputs) - (the outputs it blinded), in v·abf + vbf terms *)
+Lemma scalar_meaning pubk ecdh p ins SS utxos : Forall3 in_ok ins SS utxos -> issuances_unblinded ins ->
+  forall ps sec rnd, ps_in ps = ins -> sec_ok SS sec -> indices_ok (length ins) (ps_out ps) ->
+  (forall i, In i (owned_idx sec (ps_out ps) 0) -> exists o, nth_error (ps_out ps) i = Some o /\ pgood (party_tg ins sec) o) ->
+  (3 * length (owned_idx sec (ps_out ps) 0) <= length rnd)%nat -> Forall in_zn rnd -> owned_idx sec (ps_out ps) 0 <> [] ->
+  exists outs' bl rnd',
+    blind_non_last pubk ecdh p ps sec rnd =
+      OVal (mkPset ins outs' (ps_scalars ps ++ [zsub (Isum sec) (Osum outs' (owned_idx sec (ps_out ps) 0))]), bl, rnd')
+    /\ Forall2 (fun i r => fst r = i /\ exists o', nth_error outs' i = Some o' /\ fst (fst (snd r)) = s_abf (osec_of o') /\ snd (fst (snd r)) = s_vbf (osec_of o'))
+         (owned_idx sec (ps_out ps) 0) bl.
+Proof.
+  intros INS ISS ps sec rnd EI OK IO G RL RZ NE.
+  destruct (non_last_char pubk ecdh p ins SS utxos INS ISS ps sec rnd EI OK IO G RL RZ) as (outs' & bl & rnd' & BN & _ & _ & _ & _ & _ & R).
+  exists outs', bl, rnd'. split; [|exact R]. rewrite BN. destruct (owned_idx sec (ps_out ps) 0); [contradiction|reflexivity].
+Qed.
